@@ -1,0 +1,57 @@
+//go:build verif
+
+package fasthttp
+
+import "time"
+
+// Thin pass-through wrappers for the C06 (cookies) verification harness under /verif.
+// Compiled only with -tags verif; they add no behaviour.
+
+// VerifRemoveSemicolons runs removeSemicolons on a copy of b.
+func VerifRemoveSemicolons(b []byte) []byte {
+	return removeSemicolons(append([]byte(nil), b...))
+}
+
+// VerifDecodeCookieArg exposes decodeCookieArg.
+func VerifDecodeCookieArg(src []byte, skipQuotes bool) []byte {
+	return decodeCookieArg(nil, append([]byte(nil), src...), skipQuotes)
+}
+
+// VerifTrimCookieArgNoCopy exposes trimCookieArgNoCopy.
+func VerifTrimCookieArgNoCopy(src []byte, skipQuotes bool) []byte {
+	return append([]byte(nil), trimCookieArgNoCopy(append([]byte(nil), src...), skipQuotes)...)
+}
+
+// VerifValidCookieValue exposes validCookieValue.
+func VerifValidCookieValue(b []byte) bool { return validCookieValue(b) }
+
+// VerifValidCookiePathValue exposes validCookiePathValue.
+func VerifValidCookiePathValue(b []byte) bool { return validCookiePathValue(b) }
+
+// VerifParseRequestCookies runs parseRequestCookies on src and returns the (key, value) pairs.
+func VerifParseRequestCookies(src []byte) [][2][]byte {
+	kvs := parseRequestCookies(nil, append([]byte(nil), src...))
+	out := make([][2][]byte, 0, len(kvs))
+	for i := range kvs {
+		out = append(out, [2][]byte{append([]byte(nil), kvs[i].key...), append([]byte(nil), kvs[i].value...)})
+	}
+	return out
+}
+
+// VerifAppendRequestCookieBytes runs appendRequestCookieBytes on the given (key, value) pairs.
+func VerifAppendRequestCookieBytes(pairs [][2][]byte) []byte {
+	kvs := make([]argsKV, len(pairs))
+	for i := range pairs {
+		kvs[i].key = pairs[i][0]
+		kvs[i].value = pairs[i][1]
+	}
+	return appendRequestCookieBytes(nil, kvs)
+}
+
+// VerifParseCookieExpires exposes parseCookieExpires.
+func VerifParseCookieExpires(b []byte) (time.Time, error) {
+	return parseCookieExpires(append([]byte(nil), b...))
+}
+
+// VerifCaseInsensitiveCompare exposes caseInsensitiveCompare.
+func VerifCaseInsensitiveCompare(a, b []byte) bool { return caseInsensitiveCompare(a, b) }
